@@ -284,3 +284,48 @@ package recordlayer
 // [not checkable, engine havoc] ensures alert-content: result == nil && D(0) == 21 ==> typeIs(r.Content, "*github.com/pion/dtls/v3/pkg/protocol/alert.Alert")
 // [not checkable, engine havoc]    && r.Content.(*alert.Alert).Level == alert.Level(D(13)) && r.Content.(*alert.Alert).Description == alert.Description(D(14))
 //@ end
+
+// RFC 9147 4: a datagram is split into records by each record's own unified header
+//   0 0 1 C S L E E | [connection id (negotiated length, only when C)] | seq (S ? 16 : 8 bits) | [length (16 bits, only when L)]
+// The header size of a record is determined by the flag bits of that very record: the connection ID
+// takes part in it only when the C bit is set. A record with the L bit spans header + declared length
+// and the next record starts right behind it; a record without L extends to the end of the datagram
+// and is the last one. Truncated records are rejected.
+
+//@ define D13_B0() old(buf[offset])
+//@ define D13_SL() (1 + int((D13_B0()>>3)&1) + 2*int((D13_B0()>>2)&1))
+//@ define D13_C() (D13_B0()&0x10 != 0)
+//@ define D13_L() (D13_B0()&0x04 != 0)
+//@ define D13_BE16(o) (int(old(buf[o]))<<8 | int(old(buf[(o)+1])))
+
+// ENGINE LIMIT (reported): unmarshalCiphertextDatagramHeader ends in `return header, header.Unmarshal(data)`. The Go
+// specification leaves the order of the read of `header` and the call unspecified; go/ssa (what vc analyses) reads
+// the variable first, so in the analysed program the caller always sees the header as it was before decoding
+// (LengthBit false, Length 0), while the gc compiler reads it after the call (what the repository's tests rely on).
+// Consequently the with-length branch of unpackCiphertextDatagramRecord is dead in the analysed program and clauses
+// that distinguish it (declared length honoured, not-last) cannot be stated without being refuted spuriously. The
+// clauses below hold under either order; the header size is fixed by the record's own flag byte in both.
+//@ func unpackCiphertextDatagramRecord
+//@ requires in-datagram: 0 <= offset && offset < len(buf)
+//@ ensures unexpected-cid-rejected: cidLength == 0 && D13_C() ==> result4 != nil
+//@ ensures required-cid-missing-rejected: cidRequired && cidLength > 0 && !D13_C() ==> result4 != nil
+//@ ensures bad-fixed-bits-rejected: D13_B0()&0xE0 != 0x20 ==> result4 != nil
+//@ ensures error-no-record: result4 != nil ==> result0 == nil && result2 == 0 && !result3
+//@ ensures ok-record-starts-here: result4 == nil ==> sameArray(result0, buf) && offsetOf(result0) == offsetOf(buf) + offset && len(result0) >= 1
+//@ ensures ok-next-is-end-of-record: result4 == nil ==> result2 == offset + len(result0) && result2 <= len(buf)
+//@ ensures ok-ciphertext-length-cid: result4 == nil && D13_C() ==> CR_LEN_OK(len(result0) - 1 - cidLength - D13_SL())
+//@ ensures ok-ciphertext-length-nocid: result4 == nil && !D13_C() ==> CR_LEN_OK(len(result0) - 1 - D13_SL())
+//@ ensures ok-cid: result4 == nil ==> (D13_C() ==> len(result1) == cidLength) && (!D13_C() ==> len(result1) == 0)
+//@ end
+
+// DTLSPlaintext inside a DTLS 1.3 datagram: 13-byte header, declared length at bytes 11..12; the record spans
+// exactly header + declared length, the next record starts right behind it; a truncated record is rejected.
+//@ func unpackPlaintextDatagram13Record
+//@ requires in-datagram: 0 <= offset && offset < len(buf)
+//@ ensures truncated-header-rejected: len(buf) - offset <= 13 ==> REJ(result2)
+//@ ensures truncated-body-rejected: len(buf) - offset > 13 && offset + 13 + REC_LEN16(buf, offset+11) > len(buf) ==> REJ(result2)
+//@ ensures error-no-record: REJ(result2) ==> result0 == nil && result1 == 0
+//@ ensures ok-declared-length: ACC(result2) ==> len(result0) == 13 + REC_LEN16(buf, offset+11)
+//@ ensures ok-record-starts-here: ACC(result2) ==> sameArray(result0, buf) && offsetOf(result0) == offsetOf(buf) + offset
+//@ ensures ok-next-is-end-of-record: ACC(result2) ==> result1 == offset + len(result0) && result1 <= len(buf)
+//@ end
